@@ -35,8 +35,8 @@ CLAIMED.update({
    "Plus C12-C: on every run symgo enumerates every generated router type of pkg/trait/* from the current tree's go/types, GENERATES a fake client and a harness per router (65 routers, ~150 methods) and executes every unary and server-streaming forwarder with a symbolic request name: exactly one call on the named client, same method, same request object, response/error/header/messages/trailer pass through, caller errors cancel the forwarded request, unknown names give NotFound and touch no client, and an RPC of the service descriptor without a forwarder (only promoted from Unimplemented...Server) is a violation. Trusted: symgo (+ concurrency runtime, protobuf model), z3; native validation of the generated harnesses is sampled (6 packages per run, rotated by seed, plus every package with a counterexample). Outside: the *_wrap.pb.go wrappers and a byte-for-byte generator-freshness diff (its observable consequence - unrouted or misrouted RPCs - is what is checked).",
    "SSA symbolic execution + SMT, symbolic scheduler, native replay"),
  "C20": ("DESIGN.md 5/C20",
-   "Kernels of the trait models executed symbolically: parent traitUnion/traitRemove on sorted symbolic name lists (set algebra), vending updateStock (units, floor at zero, nil-safety, error reporting), unitpb.Convert (identity / category errors), fan speed DeriveValues (table consistency under precedence, no panic for 0..3 presets), mode relativeAdjustment (modular step over full int32), NewModelModes configuration, enter/leave totals, meter RecordReading/Reset times, vending constructor plumbing and DispenseInstantly end to end.",
-   "Trusted: symgo, z3, ordinal-string abstraction for names that are only compared. Outside: float rounding in real unit conversion (symbolic FP multiply+divide is undecided by all back ends), md5/version of publications.",
+   "Kernels of the trait models executed symbolically: parent traitUnion/traitRemove on sorted symbolic name lists (set algebra), vending updateStock (units, floor at zero, nil-safety, error reporting), unitpb.Convert (identity / category errors), fan speed DeriveValues (table consistency under precedence, no panic for 0..3 presets), mode relativeAdjustment (modular step over full int32), NewModelModes configuration, enter/leave totals, meter RecordReading/Reset times, vending constructor plumbing and DispenseInstantly end to end; publication version / acknowledgement lifecycle through the PublicationApi server (real md5 over concrete content, symbolic operation sequence).",
+   "Trusted: symgo, z3, ordinal-string abstraction for names that are only compared. Outside: float rounding in real unit conversion (symbolic FP multiply+divide is undecided by all back ends).",
    "SSA symbolic execution + SMT (BV, FP), native replay"),
 })
 
@@ -100,13 +100,13 @@ CLAIMED.update({
 CLAIMED.update({
  "C07": ("DESIGN.md 5/C07",
    "Heap-level isolation on the engine's own store: every message handed out (Get/List/Set/Update/Add/Delete results, model snapshots) is frozen - any later store into a cell or map reachable from it is a violation - and the store must be unaffected when the caller scribbles over a message after writing it; over 3-4 operation sequences on Value, Collection, parent (AddChildTrait/RemoveChildTrait incl. spare-capacity slices), metadata (UpdateTraitMetadata/MergeMetadata), the enter/leave Pull seed, openclose PullPositions under read masks (and GetPositions/GetPosition under masks below states) and the electric model's modes (every mode read frozen across two arbitrary later operations); plus one GENERATED harness per write/read/pull method triple of every trait Model found in the current tree (14 triples in 13 packages): populated message written, scribbled over, read, subscribed, read under two masks, written again - everything that crossed the API frozen and deep-compared.",
-   "Trusted: symgo heap model (slice capacity growth mirrors the Go runtime's size classes), protobuf model, z3. Natively reproduced by deep-copy-and-compare. Collection-shaped trait models (hail, publication, vending, booking, waste) are outside the generator.",
+   "Trusted: symgo heap model (slice capacity growth mirrors the Go runtime's size classes), protobuf model, z3. Natively reproduced by deep-copy-and-compare. Collection-shaped trait models (hail, publication, consumables, stock, bookings) are driven through one shared isolation driver with hand-written adapters; wastepb is not driven; time.AfterFunc callbacks never run.",
    "SSA symbolic execution with heap freeze monitor + SMT, native replay"),
 })
 
 CLAIMED.update({
  "C11": ("DESIGN.md 5/C11",
-   "Happens-before race monitor inside the symbolic concurrency runtime: vector clocks per goroutine and per synchronisation object (mutex/RWMutex, channel, WaitGroup, context, go), an access history per heap cell and map touched by the interpreted code; two accesses to one cell, one a write, unordered by happens-before on a feasible schedule are reported with both sites. Workloads: Value writer/reader/subscriber with interceptors reading their arguments, Collection generated-id adds, update/delete/get, pull readers, two senders on a bus with an uncollected listener, router registry, parent and electric models (readers clone what they read so every field is touched).",
+   "Happens-before race monitor inside the symbolic concurrency runtime: vector clocks per goroutine and per synchronisation object (mutex/RWMutex, channel, WaitGroup, context, go), an access history per heap cell and map touched by the interpreted code; two accesses to one cell, one a write, unordered by happens-before on a feasible schedule are reported with both sites. Workloads: Value writer/reader/subscriber with interceptors reading their arguments, Collection generated-id adds, update/delete/get, pull readers, two senders on a bus with an uncollected listener, router registry, parent and electric models (readers clone what they read so every field is touched); plus one GENERATED writer/reader/subscriber workload per trait Model method triple found in the current tree.",
    "Trusted: symgo runtime; scheduler switches only at synchronisation operations (complete for the bound by the DRF argument). Native confirmation by go test -race naming the same function. Outside: pkg/wrap streams, group servers, anything inside stubbed libraries, workloads beyond 3-4 goroutines.",
    "SSA symbolic execution with vector-clock race monitor + SMT, native replay under the Go race detector"),
 })
